@@ -20,6 +20,7 @@ import (
 	"io"
 	"math/big"
 	"os"
+	"sort"
 	"strings"
 
 	"github.com/bronlabs/bron-crypto/pkg/base/curves/curve25519"
@@ -156,7 +157,9 @@ func mkElem[T any](r *vh.Rng, a elemAPI[T]) elemType {
 		}
 	}
 	// payload pool
-	add := func(kind string, b []byte) { et.payloads = append(et.payloads, payload{kind, append([]byte(nil), b...)}) }
+	add := func(kind string, b []byte) {
+		et.payloads = append(et.payloads, payload{kind, append([]byte(nil), b...)})
+	}
 	lens := map[int]bool{}
 	for _, h := range a.honest {
 		for _, enc := range a.encs {
@@ -187,7 +190,12 @@ func mkElem[T any](r *vh.Rng, a elemAPI[T]) elemType {
 			}
 		}
 	}
+	var sortedLens []int
 	for l := range lens {
+		sortedLens = append(sortedLens, l)
+	}
+	sort.Ints(sortedLens)
+	for _, l := range sortedLens {
 		z := make([]byte, l)
 		add("all-zero", z)
 		f := make([]byte, l)
@@ -302,23 +310,38 @@ func regField[E fieldElem[E]](r *vh.Rng, name string, st fieldStruct[E], newE fu
 	}
 	return mkElem(r, elemAPI[E]{
 		name: name, honest: hs,
-		encs:  []func(E) []byte{func(e E) []byte { return e.Bytes() }},
-		ctors: []func([]byte) (E, error){st.FromBytes},
-		eq:    func(a, b E) bool { return a.Equal(b) },
-		newT:  newE, hasCBOR: true, extra: extra,
+		// MarshalBinary of the field element types emits the internal little-endian form, for which the
+		// structures have no separate public constructor: the byte-reversed payload through FromBytes is
+		// the same canonical-range check, so it counts as the type's own constructor for that form.
+		encs: []func(E) []byte{func(e E) []byte { return e.Bytes() }, func(e E) []byte {
+			if m, ok := any(e).(encoding.BinaryMarshaler); ok {
+				b, _ := m.MarshalBinary()
+				return b
+			}
+			return nil
+		}},
+		ctors: []func([]byte) (E, error){st.FromBytes, func(b []byte) (E, error) {
+			rev := make([]byte, len(b))
+			for i := range b {
+				rev[len(b)-1-i] = b[i]
+			}
+			return st.FromBytes(rev)
+		}},
+		eq:   func(a, b E) bool { return a.Equal(b) },
+		newT: newE, hasCBOR: true, extra: extra,
 	})
 }
 
 // the eight torsion points of edwards25519, compressed (RFC 8032 encoding)
 var edTorsion = []string{
-	"0100000000000000000000000000000000000000000000000000000000000000", // identity
+	"0100000000000000000000000000000000000000000000000000000000000000",   // identity
 	"ecffffffffffffffffffffffffffffffffffffffffffffffffffffffffffffff7f", // (0,-1), order 2
-	"0000000000000000000000000000000000000000000000000000000000000000", // order 4
-	"0000000000000000000000000000000000000000000000000000000000000080", // order 4
-	"26e8958fc2b227b045c3f489f2ef98f0d5dfac05d3c63339b13802886d53fc05", // order 8
-	"26e8958fc2b227b045c3f489f2ef98f0d5dfac05d3c63339b13802886d53fc85", // order 8
-	"c7176a703d4dd84fba3c0b760d10670f2a2053fa2c39ccc64ec7fd7792ac037a", // order 8
-	"c7176a703d4dd84fba3c0b760d10670f2a2053fa2c39ccc64ec7fd7792ac03fa", // order 8
+	"0000000000000000000000000000000000000000000000000000000000000000",   // order 4
+	"0000000000000000000000000000000000000000000000000000000000000080",   // order 4
+	"26e8958fc2b227b045c3f489f2ef98f0d5dfac05d3c63339b13802886d53fc05",   // order 8
+	"26e8958fc2b227b045c3f489f2ef98f0d5dfac05d3c63339b13802886d53fc85",   // order 8
+	"c7176a703d4dd84fba3c0b760d10670f2a2053fa2c39ccc64ec7fd7792ac037a",   // order 8
+	"c7176a703d4dd84fba3c0b760d10670f2a2053fa2c39ccc64ec7fd7792ac03fa",   // order 8
 	// non-canonical encodings of small-order points (y >= p, or x = 0 with the sign bit set)
 	"0100000000000000000000000000000000000000000000000000000000000080",
 	"ecffffffffffffffffffffffffffffffffffffffffffffffffffffffffffffffff",
